@@ -217,4 +217,108 @@ example : okVal (tally "sc" [{ addr := "a0", bonded := 6, shares := Dec.ofInt 6 
       [⟨"sc", "a0", Dec.ofInt 3⟩, ⟨"a0", "a0", Dec.ofInt 3⟩] [⟨"a0", [⟨1, Dec.one⟩]⟩] 6)
     = some (Dec.ofInt 6, { yes := Dec.ofInt 3 }) := by decide
 
+/-! ## 4. the order of the Go map `validators` does not matter -/
+
+private theorem look_perm {vs₁ vs₂ : List Val} (p : vs₁.Perm vs₂) (nd : (vs₁.map Val.addr).Nodup) (k : String) :
+    look vs₁ k = look vs₂ k := by
+  induction p with
+  | nil => rfl
+  | cons x _ ih =>
+    simp only [List.map_cons, List.nodup_cons] at nd
+    simp only [look, List.find?_cons] at ih ⊢
+    rw [ih nd.2]
+  | swap x y l =>
+    simp only [List.map_cons, List.nodup_cons, List.mem_cons, not_or] at nd
+    simp only [look, List.find?_cons]
+    by_cases hx : (x.addr == k) = true <;> by_cases hy : (y.addr == k) = true
+    · exfalso
+      have e1 : x.addr = k := by simpa using hx
+      have e2 : y.addr = k := by simpa using hy
+      exact nd.1.1 (e2.trans e1.symm)
+    · simp [hx, hy]
+    · simp [hx, hy]
+    · simp [hx, hy]
+  | trans p₁ _ ih₁ ih₂ =>
+    rw [ih₁ nd, ih₂ ((p₁.map Val.addr).nodup_iff.mp nd)]
+
+private theorem finalAcc_congr (sc : String) (vs₁ vs₂ : List Val) (ds : List Deleg) (votes : List Vote)
+    (h : look vs₁ = look vs₂) : finalAcc sc vs₁ ds votes = finalAcc sc vs₂ ds votes := by
+  have e1 : step1 sc vs₁ = step1 sc vs₂ := by funext s d; simp only [step1, h]
+  have e2 : stepDel vs₁ = stepDel vs₂ := by funext a b c d; simp only [stepDel, h]
+  have e3 : step2 sc vs₁ ds = step2 sc vs₂ ds := by funext s vt; simp only [step2, h, e2]
+  have e4 : Acc.init vs₁ = Acc.init vs₂ := by simp only [Acc.init, h]
+  simp only [finalAcc, pass1, pass2, e1, e3, e4]
+
+private theorem dec_ext {a b : Dec} (h : a.raw = b.raw) : a = b := by
+  cases a; cases b; simp only at h; subst h; rfl
+
+private theorem addTo_comm (r : Results) (k j : Nat) (x y : Dec) :
+    (r.addTo k x).addTo j y = (r.addTo j y).addTo k x := by
+  have hc : ∀ a : Dec, (a.add x).add y = (a.add y).add x := by
+    intro a; apply dec_ext; simp only [Dec.add]; omega
+  unfold Results.addTo
+  by_cases k1 : k = 1 <;> by_cases k2 : k = 2 <;> by_cases k3 : k = 3 <;> by_cases k4 : k = 4 <;> by_cases k5 : k = 5 <;>
+  by_cases j1 : j = 1 <;> by_cases j2 : j = 2 <;> by_cases j3 : j = 3 <;> by_cases j4 : j = 4 <;> by_cases j5 : j = 5 <;>
+  first
+  | omega
+  | simp [k1, k2, k3, k4, k5, j1, j2, j3, j4, j5, hc]
+
+private def addW (r : Results) (e : Nat × Dec) : Results := r.addTo e.1 e.2
+
+private theorem optsFold_eq (p : Dec) (opts : List WOpt) (r : Results) :
+    opts.foldl (fun r o => r.addTo o.opt (p.mul o.weight)) r
+      = (opts.map (fun o => (o.opt, p.mul o.weight))).foldl addW r := by
+  rw [List.foldl_map]; rfl
+
+private theorem foldl_comm1 {α β : Type} (f : β → α → β) (hf : ∀ z a b, f (f z a) b = f (f z b) a) :
+    ∀ (ys : List α) (z : β) (x : α), ys.foldl f (f z x) = f (ys.foldl f z) x := by
+  intro ys
+  induction ys with
+  | nil => intro z x; rfl
+  | cons y l ih => intro z x; simp only [List.foldl_cons]; rw [hf z x y]; exact ih (f z y) x
+
+private theorem foldl_swap {α β : Type} (f : β → α → β) (hf : ∀ z a b, f (f z a) b = f (f z b) a) :
+    ∀ (xs ys : List α) (z : β), ys.foldl f (xs.foldl f z) = xs.foldl f (ys.foldl f z) := by
+  intro xs
+  induction xs with
+  | nil => intro ys z; rfl
+  | cons x l ih => intro ys z; simp only [List.foldl_cons]; rw [ih ys (f z x), foldl_comm1 f hf ys z x]
+
+private theorem addBallot_comm (z : Dec × Results) (x y : Ballot) :
+    addBallot (addBallot z x) y = addBallot (addBallot z y) x := by
+  unfold addBallot
+  simp only [optsFold_eq]
+  refine Prod.ext ?_ ?_
+  · apply dec_ext; simp only [Dec.add]; omega
+  · exact foldl_swap addW (fun r a b => addTo_comm r a.1 b.1 a.2 b.2) _ _ _
+
+/-- the accumulators (`totalVP`, `results`) do not depend on the order in which ballots are added -/
+theorem accumulate_perm {b₁ b₂ : List Ballot} (p : b₁.Perm b₂) : accumulate b₁ = accumulate b₂ :=
+  List.Perm.foldl_eq' p (fun x _ y _ z => addBallot_comm z x y) _
+
+/-- `tally_perm`: `validators` is a Go map — whatever order `for _, val := range validators` takes (and whatever
+    order the map was filled in), the tally returns the same total and the same option totals, bit for bit.
+    (`Nodup`: the keys of a map are distinct.) -/
+theorem tally_perm (sc : String) (vs₁ vs₂ : List Val) (ds : List Deleg) (votes : List Vote) (bonded : Int)
+    (p : vs₁.Perm vs₂) (nd : (vs₁.map Val.addr).Nodup) :
+    tally sc vs₁ ds votes bonded = tally sc vs₂ ds votes bonded := by
+  have hl : look vs₁ = look vs₂ := funext (look_perm p nd)
+  have hf := finalAcc_congr sc vs₁ vs₂ ds votes hl
+  simp only [tally]
+  rw [← hf]
+  have h3 : ok3 (finalAcc sc vs₁ ds votes) vs₁ = ok3 (finalAcc sc vs₁ ds votes) vs₂ := p.all_eq
+  have ha : accumulate ((finalAcc sc vs₁ ds votes).ballots ++ pass3 (finalAcc sc vs₁ ds votes) vs₁)
+      = accumulate ((finalAcc sc vs₁ ds votes).ballots ++ pass3 (finalAcc sc vs₁ ds votes) vs₂) :=
+    accumulate_perm ((p.filterMap _).append_left _)
+  rw [h3, ha]
+
+/-- non-vacuity: two voting validators in both orders -/
+example : tally "sc" [{ addr := "a0", bonded := 6, shares := Dec.ofInt 6 }, { addr := "a1", bonded := 9, shares := Dec.ofInt 7 }]
+      [⟨"sc", "a0", Dec.ofInt 3⟩, ⟨"a0", "a0", Dec.ofInt 3⟩, ⟨"a1", "a1", Dec.ofInt 7⟩]
+      [⟨"a0", [⟨1, Dec.one⟩]⟩, ⟨"a1", [⟨3, Dec.one⟩]⟩] 15
+    = tally "sc" [{ addr := "a1", bonded := 9, shares := Dec.ofInt 7 }, { addr := "a0", bonded := 6, shares := Dec.ofInt 6 }]
+      [⟨"sc", "a0", Dec.ofInt 3⟩, ⟨"a0", "a0", Dec.ofInt 3⟩, ⟨"a1", "a1", Dec.ofInt 7⟩]
+      [⟨"a0", [⟨1, Dec.one⟩]⟩, ⟨"a1", [⟨3, Dec.one⟩]⟩] 15 :=
+  tally_perm _ _ _ _ _ _ (List.Perm.swap _ _ _) (by decide)
+
 end Sunrise.C16
